@@ -71,7 +71,8 @@
 (*  EnableIdempotent      re-delivery of enable with the sequence number   *)
 (*      already current changes neither current_seq_no.txt nor any status  *)
 (*      file (the service's report is not thrown back to Transitioning)    *)
-(*      and does not start a second service.                               *)
+(*      and does not start a second service.  (Claimed while a service is  *)
+(*      running; an enable that cannot start one reports Error, exit 7.)   *)
 (*  UpdateTagLifecycle    between commands, update.tag exists exactly if   *)
 (*      an `update` completed and no enable/reset completed since.         *)
 (*  UninstallGuard        `uninstall` runs the setup tool's uninstall      *)
@@ -109,8 +110,23 @@
 (*      Error nor purges the backup on Success for the rest of the run.    *)
 (*      With ResetDecisionOnInstall = TRUE (the proposed minimal fix:      *)
 (*      clear the flag when the loop issues a new install) it holds.       *)
+(*                                                                         *)
+(* Recorded, not judged (implementation shape the properties do not        *)
+(* constrain): the status of the install step goes to <exe dir>/status,    *)
+(* not to HandlerEnvironment.statusFolder (the deployed layouts make them  *)
+(* the same directory); an observation is "successful" when status.json    *)
+(* parses and names the packaged version -- neither its own `status` field *)
+(* nor its age is looked at, so a stale file of the same version makes the *)
+(* loop purge right after an install; handler commands compare sequence    *)
+(* numbers as strings, never by order.                                     *)
+(*                                                                         *)
+(* Configurations: mc/ExtHandler.cfg (one handler, everything, < 60 s),    *)
+(* mc/ExtHandler_update.cfg (two handlers, the update choreography),       *)
+(* mc/ExtHandler_os.cfg (unsupported OS), mc/ExtHandler_stray.cfg and      *)
+(* mc/ExtHandler_latch.cfg (expected counterexamples of the two findings), *)
+(* mc/ExtHandler_fixed.cfg (the proposed fix).                             *)
 (***************************************************************************)
-EXTENDS Naturals, TLC
+EXTENDS Integers, TLC
 
 CONSTANTS Handlers,      \* extension versions (directories); handler h packages agent version h
           Seqs,          \* sequence numbers the guest agent may deliver (strings, non-empty)
@@ -458,7 +474,7 @@ TypeOK ==
   /\ svc \in Handlers \cup {None} /\ cache \in Seqs \cup {Empty} /\ decided \in BOOLEAN
   /\ lpc \in {"top", "ver", "bak", "ins", "insst", "obs", "dec", "rep"}
   /\ H!TypeOK
-  /\ pending \in BOOLEAN /\ credit \in 0..2 /\ call \in {None, "restore", "purge"}
+  /\ pending \in BOOLEAN /\ credit \in -1..2 /\ call \in {None, "restore", "purge"}
 
 \* a handler step is a step that changes hp
 IsHandlerStep == hp' # hp
@@ -490,7 +506,7 @@ EnableKeepsRunningService ==
 UpdateTagLifecycle == (hp = Idle) => (tag = upd)
 
 \* --- UninstallGuard
-UninstallGuard == [][(Busy /\ hp.c = "uninstall" /\ hp' = Idle) => (hp.called = ~hp.pretag)]_vars
+UninstallGuard == [][(Busy /\ hp.c = "uninstall" /\ hp.pc # "os" /\ hp' = Idle) => (hp.called = ~hp.pretag)]_vars
 \* the agent is unregistered only by an uninstall outside an update
 AgentUnregisteredOnlyByUninstall ==
   [][(agentUp /\ ~agentUp') => (Busy /\ hp.c = "uninstall" /\ ~hp.pretag)]_vars
